@@ -203,9 +203,14 @@ pub fn dispatch(f: &[&str]) -> String {
             let creds = Credentials::new(user.clone(), pw.clone());
             let mut leaks = vec![];
             let b64pw = lettre::verif_hooks::base64_encode(pw.as_bytes());
+            let b64user = lettre::verif_hooks::base64_encode(user.as_bytes());
             let mut chk = |what: &str, s: String| {
                 if s.contains(&pw) || s.contains(&b64pw) {
                     leaks.push(what.to_string());
+                }
+                // the authentication identity is half of the credentials: it is not shown either
+                if s.contains(&user) || s.contains(&b64user) {
+                    leaks.push(format!("{what} (user name)"));
                 }
             };
             chk("Credentials Debug", format!("{creds:?}"));
